@@ -216,6 +216,9 @@ pub fn embedding(name: &str) -> Embedding {
         // full 53-bit mantissas (2^26 + v * 2^-26): conditioning 2^52, used for the exact
         // contracts (C16) and the sign / range conditions (C17) only
         "E10" => Embedding { name: "E10", a: p2(26), b: p2(-26) },
+        // near the top of the f64 range (values up to 3 * 2^1022 = 1.3e308): sums of two
+        // observations overflow, the observations themselves do not (small-sample quantile, C07/C15)
+        "E11" => Embedding { name: "E11", a: 0.0, b: p2(1022) },
         _ => panic!("unknown embedding {name}"),
     }
 }
